@@ -102,6 +102,21 @@ Theorem C05_mirror_converges : forall tr k,
 Proof. exact mirror_converges_thm. Qed.
 Print Assumptions C05_mirror_converges.
 
+(* mirror_converges for EVERY final state of the remote unit — Succeeded, Failed, Canceled: once
+   nothing breaks any more the local output becomes equal to the remote output and no stream stays
+   open.  (IsComplete does not cover Canceled, so for a cancelled unit the stdout monitor goes on
+   looking once a second instead of returning; it has fetched everything all the same.) *)
+Theorem C05_mirror_converges_every_final_state : forall tr k,
+  contract (menv tr) = true ->
+  results_done (w_state (m_remote (mrun tr))) = true ->
+  (length (m_remote_out (mrun tr)) + 4 <= k)%nat ->
+  let s' := mrun_from (mrun tr) (settle k) in
+  m_local s' = m_remote_out s' /\ m_remote_out s' = m_remote_out (mrun tr) /\
+  (forall start ph, m_mode s' <> MStream start ph) /\
+  (is_complete (w_state (m_remote (mrun tr))) = true -> m_mode s' = MStopped).
+Proof. exact mirror_converges_done_thm. Qed.
+Print Assumptions C05_mirror_converges_every_final_state.
+
 (* the stdout monitor never stops early: whenever it has returned, the local output is the whole
    remote output of a finished unit *)
 Theorem C05_mirror_stops_only_when_equal : forall tr,
